@@ -73,6 +73,10 @@ func caseC19(c *Ctx) {
 		c19SharedDump(c)
 		return
 	}
+	if c.Mode == "interleaved" {
+		c19Interleaved(c)
+		return
+	}
 	if c.Mode == "sharedinputs" {
 		c19SharedInputs(c)
 		return
